@@ -22,11 +22,11 @@ CLAIMED = {
          "As C01. The IRR-side failure modes (unknown as-set, error responses, unreachable) are exercised by the engine-B part when present."),
  "C04": ("fault_enumeration", "DESIGN.md section 3 C04",
          "fault enumeration inside property-based testing (proptest): every position of the agent's request sequence x every fault kind for N = 0..5 loads is enumerated against a recording fake Junos; policy contents are generated; oracle = invariant over the RPC names received and the run's result",
-         "The agent's real Updater::run (real session over an in-memory transport, real evaluator against a fake IRRd, pipelined loads) runs against a fake Junos that injects one fault (rpc-error, truncated reply, wrong root, not XML, unknown message-id, close before / after the reply, a well-formed reply that acknowledges nothing, and for loads the Junos results shapes: error with count, error then <ok/> or <ok></ok>, warning-error-warning-ok, empty results, warning without ok, plus a generated family of results shapes that are never a positive acknowledgement) at one request index; the unmodified agent binary over TLS runs the same enumeration for N = 2; positions x kinds are enumerated completely for each N, load replies are withheld until the last load was received. Invariant: commit only after a positively acknowledged open and only if every earlier load reply was positive, never after a failed step; the run reports failure iff a step failed; success only with positive commit, close-configuration and close-session; nothing reaches the live database without a commit.",
+         "The agent's real Updater::run (real session over an in-memory transport, real evaluator against a fake IRRd, pipelined loads) runs against a fake Junos that injects one fault (rpc-error, truncated reply, wrong root, not XML, unknown message-id, close before / after the reply, a well-formed reply that acknowledges nothing, the normal reply with an rpc-error appended, error+warning pairs, and for loads the Junos results shapes: error with count, error then <ok/> or <ok></ok>, warning-error-warning-ok, empty results, warning without ok, plus a generated family of results shapes that are never a positive acknowledgement) at one request index; the unmodified agent binary over TLS runs the same enumeration for N = 2; positions x kinds are enumerated completely for each N, load replies are withheld until the last load was received. Invariant: commit only after a positively acknowledged open and only if every earlier load reply was positive, never after a failed step; the run reports failure iff a step failed; success only with positive commit, close-configuration and close-session; nothing reaches the live database without a commit.",
          "The fake Junos' reply shapes and open/load/commit semantics are modelled. A 15 s watchdog (all peers in-process) classifies a run that never completes."),
  "C05": ("exploration", "DESIGN.md section 3 C05",
          PBT + ": generated schedules on a harness-owned single-threaded executor (schedule = generated value; wakers honoured; quiescence = deterministic deadlock verdict); oracle = tag echo per message-id, id freshness, all resolved at quiescence",
-         "The real Session over an in-memory transport is driven by an executor whose every step (poll a woken task, release the next reply in a generated permutation, inject a stray reply, let one gated send through) is chosen by a generated schedule; in a quarter of the worlds one or two sends report an I/O error, either without delivering anything or after the whole request reached the server; reply futures live in separate tasks, joined groups or sequential groups. Checks fresh message-ids, that each caller gets the reply tagged for its id, nobody waits forever, strays are never delivered, and a further request still works.",
+         "The real Session over an in-memory transport is driven by an executor whose every step (poll a woken task, release the next reply in a generated permutation, inject a stray reply, let one gated send through) is chosen by a generated schedule; in a quarter of the worlds one or two sends report an I/O error, either without delivering anything or after the whole request reached the server; reply futures live in separate tasks, joined groups or sequential groups. Some sends hand their bytes over at once and return later (slow flush), one reply may be 70 KiB, and every other stray bears the id the session allocates next. Checks fresh message-ids, that each caller gets the reply tagged for its id, nobody waits forever, strays are never delivered, and a further request still works.",
          "Single OS thread: all poll-level interleavings reachable, races inside tokio::sync::Mutex itself are not. Requests are issued by one task (rpc takes &mut self)."),
  "C06": ("exploration", "DESIGN.md section 3 C06",
          PBT + ": generated chunk plans executed by scripted peers on the three REAL transports over loopback (tokio-rustls server, russh server with exact channel-data packets, child process for the local CLI); oracles = delivered payloads vs sent payloads, and promptness judged against the instant the peer itself sent further traffic",
@@ -42,7 +42,7 @@ CLAIMED = {
          "Trusts the harness's XML renderer (cross-checked by its own strict parser) and the Debug rendering of rpc::Error as comparison medium. Values contain no XML metacharacters (C13's subject)."),
  "C09": ("exploration", "DESIGN.md section 3 C09",
          PBT + ": (capability set, request) pairs; oracle = table transcribed from RFC 6241 section 8 / ietf-netconf.yang if-feature statements, evaluated on the bytes on the wire and on the caller's request",
-         "Every operation with every combination of its builder calls against minimal / minimal-minus-one / superset / random capability sets (10 capabilities x 2^5 URL schemes x base:1.1). Wire direction: whatever reached the transport requires only advertised capabilities. Converse: a request within the advertised capabilities is sent as exactly one message.",
+         "Every operation with every combination of its builder calls against minimal / minimal-minus-one / superset / random capability sets (advertised in generated order, with look-alike URIs of standard capabilities and URL schemes listed in any order) (10 capabilities x 2^5 URL schemes x base:1.1). Wire direction: whatever reached the transport requires only advertised capabilities. Converse: a request within the advertised capabilities is sent as exactly one message.",
          "The RFC table is transcribed by hand. Default-valued explicit parameters are accepted either way; semantically invalid requests are judged in the wire direction only."),
  "C10": ("exploration", "DESIGN.md section 3 C10",
          PBT + ": adversarial parameter values for every operation; oracle = the harness's own strict XML 1.0 parser + value recovery at the protocol-defined location + delimiter count",
@@ -66,15 +66,15 @@ CLAIMED = {
          "Bytes are handed over as one framed message (framing is C06). A call that does not return within 60 s is reported as a violation with the input as replay (per-case watchdog; libFuzzer -timeout artifacts are re-run under it). libFuzzer campaigns are only approximately reproducible from -seed; the saved input is the reproducible unit."),
  "C15": ("exploration", "DESIGN.md section 3 C15",
          PBT + ": generated sets of managed policies containing unevaluable members, run through the agent's real Updater::run with the real evaluator; oracle = run succeeds, commit received, every evaluable policy installed with exactly its RPSL set",
-         "2..7 policies with at least one valid-but-unevaluable expression (unknown as-set, IRR E/F, unknown route-/filter-set, PeerAS, AS-path regexp, attribute match, set AND regexp) at generated positions; every unevaluable kind alone at every position is enumerated first. The confirmed defects (PeerAS unimplemented!(), dependency todo!() unwinding the task that evaluates all policies) were repaired and are regression inputs.",
+         "2..9 policies (some evaluable only through a filter-set; in half of the cases all already installed) with at least one valid-but-unevaluable expression (filter-set chain ending in an unknown as-set, unknown as-set, IRR E/F, unknown route-/filter-set, PeerAS, AS-path regexp, attribute match, set AND regexp) at generated positions; every unevaluable kind alone at every position is enumerated first. The confirmed defects (PeerAS unimplemented!(), dependency todo!() unwinding the task that evaluates all policies) were repaired and are regression inputs.",
          "Nothing is asserted about the unevaluable policy itself (C03). Unknown route-/filter-sets evaluate to the empty set by the library's documented design."),
  "C16": ("exploration", "DESIGN.md section 3 C16",
          PBT + ": generated running configurations rendered raw (attribute order, duplicated xmlns:jcmd, jcmd prefix, comment decoration, body shape under generator control); oracle = independent selection written from the property text, expressions compared by AST",
-         "0..8 generated policy statements per configuration through the agent's real session and candidate reader; the selected (name, expression) pairs must equal an independent selection (active, annotated with a parseable expression, body exactly a default reject - other bodies include terms, other actions, a from clause and a further element of five shapes inside <then> or at statement level, before or after the reject); duplicate selected names must be rejected.",
+         "0..8 generated policy statements per configuration through the agent's real session and candidate reader, served by a fake router that honours the request's subtree filter; the selected (name, expression) pairs must equal an independent selection (active, annotated with a parseable expression, body exactly a default reject - other bodies include terms, other actions, a from clause and a further element of five shapes inside <then> or at statement level, before or after the reject); duplicate selected names must be rejected.",
          "'Inactive' = jcmd:active=\"false\"; decorations are the /* */ family; expressions compared through the rpsl parser (a dependency, not code under test)."),
  "C17": ("exploration", "DESIGN.md section 3 C17",
          PBT + ": metamorphic - a generated sequence of expressions on one evaluator vs each expression on a fresh evaluator, against a fake IRRd with injected D/E/F answers",
-         "Sequences of 2..7 expressions evaluated on one RpslEvaluator/connection against a database in which generated keys always answer with an error, further errors are injected for one query of one member of the sequence (the fake IRRd's epoch is advanced before each member and is the same for the fresh evaluator), and filter-sets are served from two sources (early stop of the resolver); each result must equal the result on a fresh connection (both fail, or equal range sets), so responses are never attributed to the wrong query and the evaluator stays usable after failures.",
+         "Sequences of 2..7 (one in seven: 20..44, biased to filter-set references) expressions evaluated on one RpslEvaluator/connection against a database in which generated keys always answer with an error, further errors are injected for one query of one member of the sequence (the fake IRRd's epoch is advanced before each member and is the same for the fresh evaluator), and filter-sets are served from two sources (early stop of the resolver); each result must equal the result on a fresh connection (both fail, or equal range sets), so responses are never attributed to the wrong query and the evaluator stays usable after failures.",
          "Results are functions of (database, epoch, expression): error answers are keyed by query and by member of the sequence, never by position on the connection."),
  "C18": ("exploration", "DESIGN.md section 3 C18",
          PBT + ": C05's schedule-owning executor plus drop actions at generated suspension points; oracle = survivors resolve with their own tag at quiescence and a further request completes",
